@@ -16,7 +16,8 @@ RULE = ('corpus; approval profiles over 2..6 candidates (1..7 distinct ballots, 
         'tie_breaking in {default,plus}; STAR (run-off of two) and allocated score against independent Python references. Declarative '
         'clauses on implementation outputs: PAV committee = unique brute-force maximiser of the harmonic satisfaction (refusal iff not unique) '
         'and satisfies justified representation; SPAV round = unique argmax. non-trivial = more than two ballots; distinct by case hash')
-PARTIAL = ['STAR and allocated score: no Coq model; checked against Python references', 'PAV justified representation: checker-decided per case']
+PARTIAL = ['STAR and allocated score: no Coq model; checked against Python references',
+           'MJ default tie-break for more than one seat: only the median clause (C12_mj_highest_median) is proved']
 TRUSTED = []
 _shared = {}
 
@@ -186,6 +187,46 @@ def score_ref(cf, votes):
     return out
 
 
+def mj_lists(cf, votes):
+    """per candidate the sorted list of corrected scores (no truncation), as score_ref builds them"""
+    cands = sorted({cc for b, _ in votes for cc, _ in b})
+    nv = sum(w for _, w in votes)
+    out = {}
+    for cc in cands:
+        lst = []
+        for b, w in votes:
+            for c2, s in b:
+                if c2 == cc:
+                    lst += [q(s)] * w
+        if len(lst) < cf['min_count']:
+            lst = [q(cf['bottom'])] * cf['min_count']
+        elif cf['unscored'] != 'none':
+            u = min(lst) if cf['unscored'] == 'min' else q(cf['unscored'])
+            lst += [u] * (nv - len(lst))
+        if not lst:
+            return None
+        out[cc] = sorted(lst)
+    return out
+
+
+def mj_ref(lists):
+    """majority judgment for one seat as documented (Balinski-Laraki): the highest lower median wins; equal medians:
+    remove one median grade from every candidate still level and compare the new medians, the candidates that fall
+    behind are out for good.  None when the outcome is undefined (a lasting tie, or a leader runs out of scores)."""
+    cur = {cc: list(l) for cc, l in lists.items()}
+    alive = set(cur)
+    while True:
+        if any(not cur[cc] for cc in alive):
+            return None
+        med = {cc: cur[cc][(len(cur[cc]) - 1) // 2] for cc in alive}
+        top = max(med.values())
+        alive = {cc for cc in alive if med[cc] == top}
+        if len(alive) == 1:
+            return next(iter(alive))
+        for cc in alive:
+            cur[cc].remove(med[cc])
+
+
 def alloc_ref(votes, n, quota_name):
     """independent allocated-score count: per seat the highest weighted score sum wins and one quota of its
     strongest supporters (highest score for the winner first, proportional cut at the boundary) is spent.
@@ -262,6 +303,25 @@ def spec(c, io, mo):
             if plain and outside and max(ref[x] for x in outside) > min(ref[x] for x in plain):
                 c['_class'] = 'score-order'
                 return 'a better aggregate is left out'
+    if u == 'mj' and v[0] == 0 and c['n'] == 1 and q(c['cfg']['trunc']) == 0 and len(v[1]) == 1 and not isinstance(v[1][0], list):
+        lists = mj_lists(c['cfg'], c['votes'])
+        if lists is not None:
+            med = {cc: l[(len(l) - 1) // 2] for cc, l in lists.items()}
+            if med[v[1][0]] != max(med.values()):
+                c['_class'] = 'mj-median'
+                return 'majority judgment elects %d (median %s), the highest median is %s' % (v[1][0], med[v[1][0]], max(med.values()))
+            if c.get('plus'):
+                level = [cc for cc in med if med[cc] == med[v[1][0]]]
+                cnt = {cc: sum(1 for s in lists[cc] if s >= med[cc]) for cc in level}
+                if any(cnt[cc] >= cnt[v[1][0]] for cc in level if cc != v[1][0]):
+                    c['_class'] = 'mj-plus'
+                    return 'majority judgment plus elects %d with %s scores at or above the median, counts %s' % (v[1][0], cnt[v[1][0]], cnt)
+            else:
+                want = mj_ref(lists)
+                if want is not None and want != v[1][0]:
+                    c['_class'] = 'mj-default-reentry'
+                    return ('majority judgment (default tie-break) elects %d, successive median removal among the level candidates elects %d: '
+                            'a candidate that fell behind stayed in the removal loop' % (v[1][0], want))
     if u == 'star' and v[0] == 0 and c['n'] == 1:
         sums = {}
         for b, w in c['votes']:
@@ -320,7 +380,7 @@ def trunc_empties(c):
 def known_class(c, io, mo):
     if c['unit'] not in ('star', 'alloc') and canon(c, io) != canon(c, mo):
         return None          # not the recorded behaviour any more
-    return {'trunc-empty': 'C12-truncation-empties', 'mj-default-stats': 'C12-mj-default-stats', 'alloc-crash': 'C12-allocated-score-crash', 'alloc-shape': 'C12-allocated-score-crash',
+    return {'trunc-empty': 'C12-truncation-empties', 'mj-default-stats': 'C12-mj-default-stats', 'mj-default-reentry': 'C12-mj-default-reentry', 'alloc-crash': 'C12-allocated-score-crash', 'alloc-shape': 'C12-allocated-score-crash',
             'star-crash': 'C12-star'}.get(c.get('_class'))
 
 
